@@ -59,7 +59,8 @@ class Block:
         :type network: str, Network
         """
 
-        self.block_hash = to_bytes(block_hash)
+        # 32 raw bytes are the hash itself, also when they happen to be hexadecimal digits in ASCII
+        self.block_hash = block_hash if isinstance(block_hash, bytes) and len(block_hash) == 32 else to_bytes(block_hash)
         if isinstance(version, int):
             self.version = version.to_bytes(4, byteorder='big')
             self.version_int = version
@@ -67,8 +68,8 @@ class Block:
             # Four raw bytes are the field itself, also when they happen to be hexadecimal digits in ASCII
             self.version = version if isinstance(version, bytes) and len(version) == 4 else to_bytes(version)
             self.version_int = 0 if not self.version else int.from_bytes(self.version, 'big')
-        self.prev_block = to_bytes(prev_block)
-        self.merkle_root = to_bytes(merkle_root)
+        self.prev_block = prev_block if isinstance(prev_block, bytes) and len(prev_block) == 32 else to_bytes(prev_block)
+        self.merkle_root = merkle_root if isinstance(merkle_root, bytes) and len(merkle_root) == 32 else to_bytes(merkle_root)
         self.time = time
         if not isinstance(time, int):
             self.time = int.from_bytes(time, 'big')
